@@ -166,8 +166,13 @@ def get_gas_vel_numba(node_pit, branch_pit, comp_from, comp_to, comp_mean, p_abs
     v_gas_from, v_gas_to, v_gas_mean, normfactor_from, normfactor_to, normfactor_mean = \
         [np.empty_like(v_mps) for _ in range(6)]
     from_nodes = branch_pit[:, FROM_NODE].astype(np.int32)
+    to_nodes = branch_pit[:, TO_NODE].astype(np.int32)
     for i in range(len(v_mps)):
-        t_from = node_pit[from_nodes[i], TINIT_NODE]
+        # inlet temperature for the actual flow direction (as in get_branch_results_gas)
+        if branch_pit[i, FROM_NODE_T_SWITCHED]:
+            t_from = node_pit[to_nodes[i], TINIT_NODE]
+        else:
+            t_from = node_pit[from_nodes[i], TINIT_NODE]
         t_to = branch_pit[i, TOUTINIT]
         tm = (t_from + t_to) / 2
         numerator_from = np.divide(NORMAL_PRESSURE * t_from, NORMAL_TEMPERATURE)
